@@ -48,13 +48,56 @@ Definition cid_state_eq (a b : cid_state) : bool :=
 
 Definition model_outcome (c : case_t) : outcome := run2 fuel (ec_input c).
 
+(* An id whose content the harness could not resolve (COpaque) cannot be compared with the content the model
+   computes.  It happens when a call's arguments differ between the run that requested it and the run that
+   recorded its result (e.g. a `%last_error%` argument): the stored argument hash then has no known preimage.
+   Such inputs are not comparable; they are counted through [is_supported]. *)
+Fixpoint cid_opaque (c : cid) : bool :=
+  match c with
+  | COpaque _ => true
+  | CService a b d => cid_opaque a || cid_opaque b || cid_opaque d
+  | CCanonElem a b p => cid_opaque a || cid_opaque b || match p with Some (_, q) => cid_opaque q | None => false end
+  | CCanonResult t vs => cid_opaque t || (fix go (l : list cid) : bool := match l with [] => false | x :: r => cid_opaque x || go r end) vs
+  | _ => false
+  end.
+Definition state_opaque (st : state cid) : bool :=
+  match st with
+  | SCall (Executed (VRScalar c)) | SCall (Executed (VRStream c _)) | SCall (Executed (VRUnused c)) | SCall (Failed c) => cid_opaque c
+  | SCanon (CanonExecuted c) => cid_opaque c
+  | _ => false
+  end.
+Definition data_opaque (d : idata) : bool :=
+  existsb state_opaque (d_trace d) || existsb cid_opaque (cs_services (d_cids d)) || existsb cid_opaque (cs_canon_results (d_cids d))
+  || existsb cid_opaque (cs_canon_elems (d_cids d)).
+(* ... but only for scripts that can make a call's arguments differ between two runs on one peer: those that read
+   %last_error% / :error: (values that depend on what else happened in the run).  For every other script an
+   unresolvable id stays a disagreement (e.g. an argument hash computed over something else than the arguments). *)
+Definition value_is_error (v : value) : bool := match v with VError _ | VLastError _ => true | _ => false end.
+Definition ap_arg_is_error (a : ap_arg) : bool := match a with AError _ | ALastError _ => true | _ => false end.
+Fixpoint instr_reads_errors (i : instr) : bool :=
+  match i with
+  | ICall _ _ args _ => existsb value_is_error args
+  | IAp _ a _ | IApMap _ _ a _ => ap_arg_is_error a
+  | IMatch _ l r b | IMisMatch _ l r b => value_is_error l || value_is_error r || instr_reads_errors b
+  | IFail _ f => match f with FLastError | FError => true | _ => false end
+  | ISeq a b | IPar a b | IXor a b => instr_reads_errors a || instr_reads_errors b
+  | INew _ _ b _ => instr_reads_errors b
+  | IFoldScalar _ _ _ b l _ | IFoldStream _ _ _ b l _ | IFoldStreamMap _ _ _ b l _ =>
+      instr_reads_errors b || match l with Some x => instr_reads_errors x | None => false end
+  | _ => false
+  end.
+Definition input_opaque (c : case_t) : bool :=
+  instr_reads_errors (ri_script (ec_input c)) &&
+  (data_opaque (ri_prev (ec_input c)) || data_opaque (ri_cur (ec_input c))).
+
 Definition is_supported (c : case_t) : bool :=
-  match model_outcome c with OutUnsupported _ => false | _ => true end.
+  negb (input_opaque c) && match model_outcome c with OutUnsupported _ => false | _ => true end.
 
 (* full comparison; cases the stage-1 model does not support compare as equal (they are counted
    separately through [is_supported]) *)
 Definition check_case (c : case_t) : bool :=
   let o := ec_obs c in
+  if input_opaque c then true else
   match model_outcome c with
   | OutUnsupported _ => true
   | OutFuel => false
@@ -74,6 +117,7 @@ Definition check_case (c : case_t) : bool :=
    (1 kind/code, 2 trace, 4 lcid, 8 next, 16 requests, 32 signed, 64 stores) *)
 Definition diff_mask (c : case_t) : N :=
   let o := ec_obs c in
+  if input_opaque c then 0 else
   match model_outcome c with
   | OutNewData code d next reqs signed =>
       (if (eo_kind o =? 0) && (code =? eo_code o)%Z then 0 else 1) +
